@@ -12,6 +12,12 @@ use crate::seqx::Oracles;
 use crate::seqx::SeqSpec;
 use crate::sut::Cfg;
 
+/// Multiplier for every internal wall cap (VX_CAP_MULT, default 1): lets a
+/// check be run to the same bounds on a machine that is busy with other work.
+pub fn cap_mult() -> u64 {
+    std::env::var("VX_CAP_MULT").ok().and_then(|s| s.parse().ok()).unwrap_or(1)
+}
+
 fn seq_assumptions() -> Vec<String> {
     vec![
         "worker pinned to the eager policy: wait_worker_idle() after every operation (other worker timings are schedx's job)".into(),
@@ -123,7 +129,7 @@ fn spec(prop: &str, alpha: Alpha, depth: usize, cfgs: Vec<Cfg>, oracles: Oracles
         max_reopens: 0,
         max_refused: 0,
         oracles,
-        wall_cap: Duration::from_secs(cap_s),
+        wall_cap: Duration::from_secs(cap_s * cap_mult()),
         grid_probes: false,
         roots: vec![],
     }
@@ -1029,7 +1035,7 @@ fn reader_shard(tier: &str, shard: usize, of: usize) -> i32 {
     let mut vios: Vec<crate::report::Violation> = vec![];
     let mut machinery: Option<String> = None;
     let mut samples: Vec<Value> = vec![];
-    let budget_s: u64 = std::env::var("VX_SHARD_WALL_S").ok().and_then(|s| s.parse().ok()).unwrap_or(if tier == "thorough" { 1500 } else { 45 });
+    let budget_s: u64 = std::env::var("VX_SHARD_WALL_S").ok().and_then(|s| s.parse().ok()).unwrap_or(cap_mult() * if tier == "thorough" { 1500 } else { 45 });
     let deadline = std::time::Instant::now() + Duration::from_secs(budget_s);
     let mut skipped = 0u64;
     for (i, s) in specs.iter().enumerate() {
@@ -1078,7 +1084,7 @@ pub fn sched_shard(prop: &str, tier: &str, shard: usize, of: usize) -> i32 {
     let mut vios: Vec<crate::report::Violation> = vec![];
     let mut machinery: Option<String> = None;
     let mut samples: Vec<Value> = vec![];
-    let budget_s: u64 = std::env::var("VX_SHARD_WALL_S").ok().and_then(|s| s.parse().ok()).unwrap_or(if tier == "thorough" { 3000 } else { 45 });
+    let budget_s: u64 = std::env::var("VX_SHARD_WALL_S").ok().and_then(|s| s.parse().ok()).unwrap_or(cap_mult() * if tier == "thorough" { 3000 } else { 45 });
     let deadline = std::time::Instant::now() + Duration::from_secs(budget_s);
     let mut skipped = 0u64;
     for (i, s) in specs.iter().enumerate() {
@@ -1125,7 +1131,7 @@ fn c14_shard(tier: &str, shard: usize, of: usize) -> i32 {
     let mut vios: Vec<crate::report::Violation> = vec![];
     let mut machinery: Option<String> = None;
     let mut samples: Vec<Value> = vec![];
-    let budget_s: u64 = std::env::var("VX_SHARD_WALL_S").ok().and_then(|s| s.parse().ok()).unwrap_or(if tier == "thorough" { 3000 } else { 45 });
+    let budget_s: u64 = std::env::var("VX_SHARD_WALL_S").ok().and_then(|s| s.parse().ok()).unwrap_or(cap_mult() * if tier == "thorough" { 3000 } else { 45 });
     let deadline = std::time::Instant::now() + Duration::from_secs(budget_s);
     let mut skipped = 0u64;
     for (i, s) in specs.iter().enumerate() {
